@@ -105,6 +105,11 @@ def make_open(plan: FaultPlan, watched):
                 plan.hit("open-error")
                 raise OSError(plan.open_error[plan.opens_w], "injected open error", file)
         raw = FaultyFileIO(file, rawmode, plan)
+        if buffering == 0:
+            if not binary:
+                raw.close()
+                raise ValueError("can't have unbuffered text I/O")
+            return raw
         try:
             if "+" in rawmode:
                 buf = io.BufferedRandom(raw)
